@@ -179,11 +179,11 @@ def threads_of(text):
 # several programs model-checked in ONE TLC run (one JVM start): the initial states are the union
 GROUPS = {
     'g18': ['exc', 'pool', 'newthread'],
-    'g19': ['wall0', 'wany1', 'wall1', 'wallts', 'tset'],
+    'g19': ['wall0', 'wany1', 'wall1', 'wallts', 'tset', 'wallts6', 'walltst'],
     'g20': ['timed', 'timed_d'],
     # every task-set overload of when_all (+ when_any), inputs outside / inside the set (see MC above)
-    'g19ts': ['wallts6', 'walltst', 'walltst6', 'walltsin'],      # (quick: ~4 700 states; `wallts` itself is in g19)
-    'g19ts2': ['wanyts', 'walltsin6'],                            # (thorough)
+    # (thorough; `wallts`, `wallts6`, `walltst` - one input outside the set, every quick run - are in g19)
+    'g19ts': ['walltst6', 'walltsin', 'wanyts', 'walltsin6'],
 }
 
 
